@@ -113,6 +113,10 @@ fn run_clock_error_bound_poller(
 
     // Keep on running forever until we receive the instruction to stop.
     while keep_running {
+        #[cfg(clockbound_verif)]
+        if crate::verif::fault("poller", "poller.top") {
+            return;
+        }
         // First, make sure we take a MONOTONIC timestamp *before* getting chronyd data. This will
         // slightly inflate the dispersion component of the clock error bound but better be
         // pessimistic and correct, than greedy and wrong. The actual error added here is expected
@@ -123,6 +127,10 @@ fn run_clock_error_bound_poller(
         // scheduled out or delayed.
         match clock_gettime_safe(CLOCK_MONOTONIC) {
             Ok(as_of) => {
+                #[cfg(clockbound_verif)]
+                if crate::verif::fault("poller", "poller.after_mono") {
+                    return;
+                }
                 // If polling is successful, pass the tracking data and monotonic timestamp to the
                 // shm writer. Otherwise signal chrony is not responding.
                 let message = match poller.get_tracking() {
@@ -154,6 +162,12 @@ fn run_clock_error_bound_poller(
                     }
                 };
 
+                #[cfg(clockbound_verif)]
+                if crate::verif::fault("poller", "poller.after_query") {
+                    return;
+                }
+                #[cfg(clockbound_verif)]
+                crate::verif::event("poller", "PSend", "");
                 match ctx.dbox.send(&ChannelId::ShmWriter, message) {
                     Ok(()) => (),
                     Err(_) => {
@@ -161,6 +175,10 @@ fn run_clock_error_bound_poller(
                         panic!("Broken channel to ShmWriter");
                     }
                 };
+                #[cfg(clockbound_verif)]
+                if crate::verif::fault("poller", "poller.after_send") {
+                    return;
+                }
             }
             Err(e) => error!(
                 "Failed to retrieve monotonic clock time before polling chronyd {:?}",
@@ -168,6 +186,10 @@ fn run_clock_error_bound_poller(
             ),
         }
 
+        #[cfg(clockbound_verif)]
+        if crate::verif::fault("poller", "poller.before_recv") {
+            return;
+        }
         // TODO: this is a very naive implementation. If messages are received in a burst, this
         // would hit chronyd at the same pace. In the current implementation, this is not happening
         // since only the Abort message is meant to be sent to the chronyd polling thread. However,
@@ -175,6 +197,8 @@ fn run_clock_error_bound_poller(
         match ctx.mbox.recv_timeout(sleep) {
             Ok(Message::ThreadAbort) => {
                 info!("Received message to stop polling chronyd");
+                #[cfg(clockbound_verif)]
+                crate::verif::event("poller", "PRecvAbort", "");
                 keep_running = false;
             }
             Ok(msg) => info!("Received unexpected message {:?}", msg),
@@ -187,6 +211,12 @@ fn run_clock_error_bound_poller(
 /// Entry point to this thread.
 pub fn run(ctx: Context, phc_info: Option<PhcInfo>) {
     info!("Starting chronyd polling thread");
+    #[cfg(clockbound_verif)]
+    crate::verif::event("poller", "Start", "");
+    #[cfg(clockbound_verif)]
+    if crate::verif::fault("poller", "poller.start") {
+        return;
+    }
     let poller = ClockErrorBoundPoller::default();
     let sleep = Duration::from_millis(1000);
     run_clock_error_bound_poller(ctx, poller, phc_info, sleep);
@@ -588,5 +618,88 @@ mod t_chrony_poller {
                     .contains("Could not parse error bound value to i64"));
             }
         }
+    }
+}
+
+/// Verification-only access to the private poller loop (compiled only with `--cfg clockbound_verif`).
+#[cfg(clockbound_verif)]
+pub mod verif_api {
+    use super::*;
+
+    type GetTracking = Box<dyn FnMut() -> Option<Tracking> + Send>;
+
+    /// Fully scripted chrony: replies and grace-period answers come from the caller.
+    pub struct ScriptedPoller {
+        pub get: GetTracking,
+        pub grace: Box<dyn Fn() -> bool + Send>,
+    }
+
+    impl ChronyOperations for ScriptedPoller {
+        fn get_tracking(&mut self) -> Option<Tracking> {
+            (self.get)()
+        }
+
+        fn is_within_grace_period(&self) -> bool {
+            (self.grace)()
+        }
+    }
+
+    /// Scripted replies, but the grace period is tracked by the real `ClockErrorBoundPoller`.
+    pub struct HybridPoller {
+        real: ClockErrorBoundPoller,
+        get: GetTracking,
+    }
+
+    impl ChronyOperations for HybridPoller {
+        fn get_tracking(&mut self) -> Option<Tracking> {
+            let reply = (self.get)();
+            if reply.is_some() {
+                self.real.last_tracking_data = Instant::now();
+            }
+            reply
+        }
+
+        fn is_within_grace_period(&self) -> bool {
+            self.real.is_within_grace_period()
+        }
+    }
+
+    /// Run the real poller loop against scripted replies and scripted grace-period answers.
+    pub fn run_poller_scripted(
+        ctx: Context,
+        get: GetTracking,
+        grace: Box<dyn Fn() -> bool + Send>,
+        phc_info: Option<PhcInfo>,
+        sleep: Duration,
+    ) {
+        run_clock_error_bound_poller(ctx, ScriptedPoller { get, grace }, phc_info, sleep)
+    }
+
+    /// Run the real poller loop against scripted replies with the real grace-period logic.
+    pub fn run_poller_hybrid(
+        ctx: Context,
+        get: GetTracking,
+        phc_info: Option<PhcInfo>,
+        sleep: Duration,
+    ) {
+        let poller = HybridPoller {
+            real: ClockErrorBoundPoller::default(),
+            get,
+        };
+        run_clock_error_bound_poller(ctx, poller, phc_info, sleep)
+    }
+
+    /// Run the real poller loop with the real chronyd client.
+    pub fn run_poller_real(ctx: Context, phc_info: Option<PhcInfo>, sleep: Duration) {
+        run_clock_error_bound_poller(ctx, ClockErrorBoundPoller::default(), phc_info, sleep)
+    }
+
+    /// Whether a freshly created real poller considers itself within the grace period.
+    pub fn fresh_poller_within_grace() -> bool {
+        ClockErrorBoundPoller::default().is_within_grace_period()
+    }
+
+    pub fn phc_error_bound_from_path(path: &std::path::Path) -> Result<i64, std::io::Error> {
+        get_phc_error_bound_from_path(path)
     }
 }
